@@ -657,10 +657,13 @@ def make_jobs(ctx, subs):
             for _ in range(n_svg):
                 kw = nxt('svg', SVG_VARIANTS)
                 jobs.append(Job(subj, 'svg', scale, border, kw))
+            # the Gallina path interpreters add unreduced rationals: with a fractional scale the denominators grow with
+            # every path operator, so symbols beyond 45 modules get integer scales only for the three operator formats
+            vscale = scale if (subj.size <= 45 or float(scale).is_integer()) else int(scale) + 1
             for fmt in ('eps', 'pdf'):
                 kw = nxt('vec', VEC_COLOURS)
-                jobs.append(Job(subj, fmt, scale, border, kw))
-            jobs.append(Job(subj, 'tex', scale, border, nxt('tex', TEX_VARIANTS)))
+                jobs.append(Job(subj, fmt, vscale, border, kw))
+            jobs.append(Job(subj, 'tex', vscale, border, nxt('tex', TEX_VARIANTS)))
     # every SVG variant at least once on a small and on a larger symbol, integer and fractional scale
     for i, v in enumerate(SVG_VARIANTS):
         jobs.append(Job(subs[i % 4], 'svg', [1, 2, 3, 0.5, 1.5, 3.3][i % 6], [None, 0, 1][i % 3], dict(v)))
